@@ -273,7 +273,18 @@ pub fn gen_c06(out: &mut Out, rng: &mut Rng, thorough: bool) {
                     // function – under every header variant: the verdict is the conjunction of
                     // the header test and the function test
                     if near {
-                        for (tid, unit) in [(0u16, slave), (rng.u16() | 1, slave), (0, slave.wrapping_add(1 + rng.u8() % 254)), (0, if slave == 0xFF { 0 } else { 0xFF })] {
+                        // (wrong transaction ids that differ in one byte only, or in the top bit only)
+                        for (tid, unit) in [
+                            (0u16, slave),
+                            (rng.u16() | 1, slave),
+                            (0x0100, slave),
+                            (0xFF00, slave),
+                            (0x8000, slave),
+                            (0x00FF, slave),
+                            (0, slave.wrapping_add(1 + rng.u8() % 254)),
+                            (0, slave ^ 0x80),
+                            (0, if slave == 0xFF { 0 } else { 0xFF }),
+                        ] {
                             if kind == "rtu" && tid != 0 {
                                 continue;
                             }
@@ -286,7 +297,10 @@ pub fn gen_c06(out: &mut Out, rng: &mut Rng, thorough: bool) {
                     // header variants: right, wrong tid, wrong unit
                     let hv = rng.below(6);
                     let (tid, unit) = match hv {
-                        0 if kind == "tcp" => (rng.u16() | 1, slave),
+                        0 if kind == "tcp" => {
+                            let any = rng.u16() | 1;
+                            (*rng.pick(&[any, any, 0x0100, 0x0200, 0xFF00, 0x8000, 0x0001, 0x00FF]), slave)
+                        }
                         1 => (0, slave.wrapping_add(1 + rng.u8() % 254)),
                         _ => (0, slave),
                     };
@@ -2021,7 +2035,7 @@ pub fn mon_c02(out: &mut Out, l: &str, r: &str) {
             (b, format!("ok {}", response(&spec::pad8(rsp))))
         }
         crate::run::Svc::Exception(e) => {
-            let code: u8 = (*e).into();
+            let code: u8 = crate::wire::ex_num(*e);
             (vec![reqpdu[0] | 0x80, code], format!("exc {}", hex8(code)))
         }
         crate::run::Svc::Decline => return,
